@@ -10,7 +10,22 @@
      machine: idx | noidx (the current code) | idx_pinned_reset | noidx_pinned_reset
               (Reset before 3b258db) | spec | specnoidx
      ops: r<hex n> (ReadRows) | s<hex> (SeekToRow) | x (Reset)
-     answer: per op  i<first>.<count>+<first>.<count>.../<eof> | k | o | d *)
+     answer: per op  i<first>.<count>+<first>.<count>.../<eof> | k | o | d
+   c08.mrows <machine> <cols> <ops>      rowGroupRows over several columns of one row group
+     machine: idx | noidx | idx_stale (rowIndex left stale on io.EOF) | spec
+     cols: the page counts of every column, columns separated by "/"
+     answer: as c08.rows; a batch whose rows are not the same row in every column is
+             i!<id>.<id>...;<id>.<id>.../<eof>
+   c08.mpages <machine> <chunks> <ops>   multiPages: chunks (row groups) of one column separated by ";"
+     machine: idx | noidx | spec          ops and answer as c08.pages, global row numbers
+   c08.mgrows <machine> <cols> <ops>     rows of a multiRowGroup: columns "/", chunks ";", pages ","
+     machine: idx | noidx | spec
+   c08.reader <machine> <cols> <ops>     Reader / GenericReader
+     machine: idx | noidx (several row groups) | idx1 | noidx1 (one row group: one chunk per column) | spec
+     ops: r<hex n> (ReadRows) | g (Reader.Read, one row) | G<hex n> (GenericReader.Read) | s<hex> | x
+   c08.async <machine> <pagecounts> <calls> <seed> <steps>
+     machine: idx | noidx; calls: r | s<hex>; the schedule is drawn from the seed (at most <steps> steps)
+     answer: the outputs of the consumer's calls as c08.pages, then /1 when the consumer finished, /0 otherwise *)
 open Conv
 
 let nat_of_hex s = nat_of_int (int_of_string ("0x" ^ s))
@@ -60,7 +75,119 @@ let tok_of_rout (o : Model.rout) =
   | Model.ROutOfRange -> "o"
   | Model.RDone -> "d"
 
+let uniform_id (row : Model.nat list) : int option =
+  match List.map int_of_nat row with
+  | [] -> None
+  | x :: rest -> if List.for_all (fun y -> y = x) rest then Some x else None
+
+let tok_of_mout ncols (o : Model.mout) =
+  match o with
+  | Model.MRows (rows, eof) ->
+      let ids = List.map (fun r -> if List.length r = ncols then uniform_id r else None) rows in
+      if List.for_all (fun x -> x <> None) ids then
+        let segs = runs (List.map (function Some x -> x | None -> 0) ids) in
+        "i" ^ String.concat "+" (List.map (fun (f, c) -> Printf.sprintf "%x.%x" f c) segs)
+        ^ "/" ^ tok_of_bool eof
+      else
+        "i!" ^ String.concat ";" (List.map (fun r ->
+                 String.concat "." (List.map (fun x -> Printf.sprintf "%x" (int_of_nat x)) r)) rows)
+        ^ "/" ^ tok_of_bool eof
+  | Model.MSeekOk -> "k"
+  | Model.MOutOfRange -> "o"
+  | Model.MDone -> "d"
+
+let chunk_of_tok s = list_of_tok nat_of_hex s
+let chunks_of_tok s = List.map chunk_of_tok (String.split_on_char ';' s)
+let cols1_of_tok s = List.map chunk_of_tok (String.split_on_char '/' s)
+let colsn_of_tok s = List.map chunks_of_tok (String.split_on_char '/' s)
+
+let rec nat_sum = function [] -> 0 | x :: r -> int_of_nat x + nat_sum r
+
+let xop_of_tok t : Model.xop =
+  if t = "x" then Model.XReset
+  else if t = "g" then Model.XRead1
+  else if String.length t > 1 && t.[0] = 'r' then Model.XReadRows (nat_of_hex (tail t))
+  else if String.length t > 1 && t.[0] = 'G' then Model.XGRead (nat_of_hex (tail t))
+  else if String.length t > 1 && t.[0] = 's' then Model.XSeek (nat_of_hex (tail t))
+  else failwith ("xop " ^ t)
+
+let cop_of_tok t : Model.cop =
+  if t = "r" then Model.CRead
+  else if String.length t > 1 && t.[0] = 's' then Model.CSeek (nat_of_hex (tail t))
+  else failwith ("cop " ^ t)
+
 let () =
+  register "c08.mrows" (function
+    | [m; cols; ops] ->
+        let cols = cols1_of_tok cols in
+        let ops = list_of_tok rop_of_tok ops in
+        let ncols = List.length cols in
+        let outs =
+          match m with
+          | "idx" -> Model.run_mrows_indexed cols ops
+          | "noidx" -> Model.run_mrows_noindex cols ops
+          | "idx_stale" -> Model.run_mrows_indexed_stale cols ops
+          | "spec" -> Model.run_mspec true (nat_of_int ncols) (nat_of_int (nat_sum (List.hd cols))) ops
+          | _ -> failwith "c08.mrows machine" in
+        tok_of_list (tok_of_mout ncols) outs
+    | _ -> failwith "c08.mrows args");
+  register "c08.mpages" (function
+    | [m; chunks; ops] ->
+        let chunks = chunks_of_tok chunks in
+        let ops = list_of_tok op_of_tok ops in
+        let outs =
+          match m with
+          | "idx" -> Model.run_mpages_indexed chunks ops
+          | "noidx" -> Model.run_mpages_noindex chunks ops
+          | "spec" -> Model.run_spec_noindex (List.concat chunks) ops
+          | _ -> failwith "c08.mpages machine" in
+        tok_of_list tok_of_out outs
+    | _ -> failwith "c08.mpages args");
+  register "c08.mgrows" (function
+    | [m; cols; ops] ->
+        let cols = colsn_of_tok cols in
+        let ops = list_of_tok rop_of_tok ops in
+        let ncols = List.length cols in
+        let outs =
+          match m with
+          | "idx" -> Model.run_mgrows_indexed cols ops
+          | "noidx" -> Model.run_mgrows_noindex cols ops
+          | "spec" -> Model.run_mspec false (nat_of_int ncols)
+                        (nat_of_int (nat_sum (List.concat (List.hd cols)))) ops
+          | _ -> failwith "c08.mgrows machine" in
+        tok_of_list (tok_of_mout ncols) outs
+    | _ -> failwith "c08.mgrows args");
+  register "c08.reader" (function
+    | [m; cols; ops] ->
+        let colsn = colsn_of_tok cols in
+        let cols1 () = List.map (function [c] -> c | _ -> failwith "c08.reader: one chunk per column expected") colsn in
+        let ops = list_of_tok xop_of_tok ops in
+        let ncols = List.length colsn in
+        let outs =
+          match m with
+          | "idx" -> Model.run_reader_indexed colsn ops
+          | "noidx" -> Model.run_reader_noindex colsn ops
+          | "idx1" -> Model.run_reader1_indexed (cols1 ()) ops
+          | "noidx1" -> Model.run_reader1_noindex (cols1 ()) ops
+          | "spec" -> Model.run_xspec (nat_of_int ncols)
+                        (nat_of_int (nat_sum (List.concat (List.hd colsn)))) ops
+          | _ -> failwith "c08.reader machine" in
+        tok_of_list (tok_of_mout ncols) outs
+    | _ -> failwith "c08.reader args");
+  register "c08.async" (function
+    | [m; pages; calls; seed; steps] ->
+        let pages = list_of_tok nat_of_hex pages in
+        let calls = list_of_tok cop_of_tok calls in
+        let st = ref (int_of_string ("0x" ^ seed) land 0x3fffffff) in
+        let next () = st := (!st * 1103515245 + 12345) land 0x3fffffff; (!st lsr 8) land 0xff in
+        let choices = List.init (int_of_string ("0x" ^ steps)) (fun _ -> nat_of_int (next ())) in
+        let (outs, fin) =
+          match m with
+          | "idx" -> Model.run_async_indexed pages calls choices
+          | "noidx" -> Model.run_async_noindex pages calls choices
+          | _ -> failwith "c08.async machine" in
+        tok_of_list tok_of_out outs ^ "/" ^ tok_of_bool fin
+    | _ -> failwith "c08.async args");
   register "c08.pages" (function
     | [m; pages; ops] ->
         let pages = list_of_tok nat_of_hex pages in
